@@ -49,10 +49,14 @@ theorem handlers_use_expected_parsers :
       (Gen.handlerInfo.find? (·.1 == rt.handler)).map (·.2.2) == some (shapeHelpers e.shape)) = true := by
   decide
 
-/-- the router is built with StrictSlash(true), the API's JSON 404 handler, and no MethodNotAllowedHandler -/
+/-- the router is built with StrictSlash(true) and the API's own JSON 404 and 405 handlers (each a single
+    sendResponse with an error: no RPC) -/
 theorem router_setup :
-    Gen.strictSlash = true ∧ Gen.notFoundHandler = "notFoundHandler" ∧ Gen.methodNotAllowedHandler = none ∧
-    (Gen.handlerInfo.find? (·.1 == "notFoundHandler")).map (·.2.1) = some [] := by
+    Gen.strictSlash = true ∧
+    Gen.notFoundHandler = "notFoundHandler" ∧ Gen.notFoundStatus = 404 ∧
+    Gen.methodNotAllowedHandler = some "methodNotAllowedHandler" ∧ Gen.methodNotAllowedStatus = some 405 ∧
+    (Gen.handlerInfo.find? (·.1 == "notFoundHandler")).map (·.2.1) = some [] ∧
+    (Gen.handlerInfo.find? (·.1 == "methodNotAllowedHandler")).map (·.2.1) = some [] := by
   decide
 
 /-- the authentication wrapper is outermost: only pass-through layers (access log, tracing) sit outside
@@ -170,21 +174,12 @@ theorem auth_gate_concrete (creds : List (String × String)) (hd : AuthHeader) (
   rw [hv]
   cases hd <;> simp
 
-/-! ### the one recorded deviation of the unchanged tree that concerns the server model -/
-
-/-- K20: the path matches a route pattern, no route has the method (and the method is not HEAD) -/
-def methodMismatch (r : Req) : Bool :=
-  r.method != "HEAD" && (expectations.filter (fun e => addresses e r)).isEmpty &&
-  expectations.any (fun e => matchPat e.pat r.segs r.slash)
-
-
 /-! ### the main theorem -/
 
 /-- **Main theorem.** For every route table that lines up with the expectations (in particular
-    `Gen.routes`, by `routes_aligned`) and every request outside the three recorded deviations, the
-    model's response satisfies every clause of the property. -/
-theorem model_holds_table (t : List Route) (hal : aligned t expectations = true) (r : Req)
-    (h8 : methodMismatch r = false) :
+    `Gen.routes`, by `routes_aligned`) and **every request, with no exception**, the model's response
+    satisfies every clause of the property (the former hypotheses ¬K07, ¬K20, ¬K21 are gone with the repairs). -/
+theorem model_holds_table (t : List Route) (hal : aligned t expectations = true) (r : Req) :
     holds r (handle Gen.chain t r) = true := by
   cases ha : authorized r with
   | false => rw [handle_unauthorized t r ha]; exact holds_unauthorized ha
@@ -199,24 +194,17 @@ theorem model_holds_table (t : List Route) (hal : aligned t expectations = true)
     exact holds_found ha hp hh hn he hadr (handler_ok h e r hsh) (wellShaped_handler h r e.pat)
   · rw [ho]; exact holds_unknown ha hp hnil (Or.inl rfl) (fun _ => rfl)
   · rw [ho]
-    refine holds_unknown ha hp hnil (Or.inr rfl) ?_
-    intro hhead
-    have : methodMismatch r = true := by
-      unfold methodMismatch
-      simp [hhead, hnil, hany]
-    rw [this] at h8; exact absurd h8 (by decide)
+    exact holds_unknown ha hp hnil (Or.inr rfl) (fun _ => rfl)
 
 /-- … for the route table and the handler chain of this tree -/
-theorem model_holds (r : Req)
-    (h8 : methodMismatch r = false) :
+theorem model_holds (r : Req) :
     holds r (handle Gen.chain Gen.routes r) = true :=
-  model_holds_table Gen.routes routes_aligned r h8
+  model_holds_table Gen.routes routes_aligned r
 
 /-- … and with tracing enabled (the ochttp layer passes requests through) -/
-theorem model_holds_tracing (r : Req)
-    (h8 : methodMismatch r = false) :
+theorem model_holds_tracing (r : Req) :
     holds r (handle Gen.chainTracing Gen.routes r) = true := by
-  unfold handle; rw [serve_genTracing]; exact model_holds r h8
+  unfold handle; rw [serve_genTracing]; exact model_holds r
 
 /-! ### the clauses one by one, each with only the hypothesis it needs -/
 
@@ -261,9 +249,9 @@ theorem faithful (r : Req) (ha : authorized r = true) (hp : preflight r = false)
   · exact absurd hnil hne
 
 /-- **single_document.** Every response body is a single JSON document (with the HTTP-defined
-    exceptions spelled out in `singleDocument`).  Needs only K20 excluded; in particular it holds for
+    exceptions spelled out in `singleDocument`), unconditionally; in particular it holds for
     every combination of invalid parts and options (the F07 repair). -/
-theorem single_document (r : Req) (h8 : methodMismatch r = false) :
+theorem single_document (r : Req) :
     singleDocument r (handle Gen.chain Gen.routes r) = true := by
   cases ha : authorized r with
   | false => rw [handle_unauthorized _ r ha]; exact holds_single (holds_unauthorized ha)
@@ -284,12 +272,7 @@ theorem single_document (r : Req) (h8 : methodMismatch r = false) :
     · simp_all
   · rw [ho]; exact holds_single (holds_unknown ha hp hnil (Or.inl rfl) (fun _ => rfl))
   · rw [ho]
-    refine holds_single (holds_unknown ha hp hnil (Or.inr rfl) ?_)
-    intro hhead
-    have : methodMismatch r = true := by
-      unfold methodMismatch
-      simp [hhead, hnil, hany]
-    rw [this] at h8; exact absurd h8 (by decide)
+    exact holds_single (holds_unknown ha hp hnil (Or.inr rfl) (fun _ => rfl))
 
 /-- Unconditionally (all requests, including the recorded deviations): never more than one JSON
     document, never more than one cluster operation. -/
@@ -467,9 +450,9 @@ theorem add_other_hash :
     addHolds { addReq0 with query := [("hash", .valid (.str "sha3-512"))] }
       (addHandle { addReq0 with query := [("hash", .valid (.str "sha3-512"))] }) = true := by decide
 
-/-! ### the full statement, and why it is false of the unchanged tree -/
+/-! ### the full statement (server side) now holds of the model -/
 
-/-- the property with no deviation excluded -/
+/-- the property of the server request path with no deviation excluded -/
 def C11_full : Prop := ∀ r : Req, holds r (handle Gen.chain Gen.routes r) = true
 
 def sPins : Seg := ⟨"pins", none, none⟩
@@ -480,8 +463,8 @@ def req0 : Req :=
 
 /-- (repaired K07) POST /pins/<cid>?mode=direct -/
 def rDirect : Req := { req0 with query := [("mode", .valid (.mode .direct))] }
-/-- K20: PUT /pins/<cid> — 405 with an empty body -/
-def rK20 : Req := { req0 with method := "PUT" }
+/-- (repaired K20) PUT /pins/<cid> -/
+def rWrongMethod : Req := { req0 with method := "PUT" }
 /-- (repaired K21) POST /pins/<cid> with an option that does not decode -/
 def rBadOpt (q : List (String × QV)) : Req := { req0 with query := q }
 
@@ -489,7 +472,10 @@ theorem pin_direct_stays_direct :
     holds rDirect (handle Gen.chain Gen.routes rDirect) = true ∧
     (handle Gen.chain Gen.routes rDirect).ops.map (·.arg) =
       [.pin (pinWithOpts 3 { (pinCid 0).opts with mode := .direct }) .direct] := by decide
-theorem K20_witness : methodMismatch rK20 = true ∧ holds rK20 (handle Gen.chain Gen.routes rK20) = false := by decide
+/-- (K20 repaired) a wrong method on a known path is refused 405 with one JSON document -/
+theorem wrong_method_json :
+    handle Gen.chain Gen.routes rWrongMethod = refuse 405 ∧
+    holds rWrongMethod (handle Gen.chain Gen.routes rWrongMethod) = true := by decide
 /-- (K21 repaired) every formerly tolerated shape is refused 400 with nothing performed, and the clauses hold -/
 theorem undecodable_options_refused :
     [ [("mode", QV.invalid)], [("user-allocations", .valid (.peers [some 1, none]))],
@@ -499,11 +485,7 @@ theorem undecodable_options_refused :
         handle Gen.chain Gen.routes (rBadOpt q) == refuse 400 &&
         holds (rBadOpt q) (handle Gen.chain Gen.routes (rBadOpt q))) = true := by decide
 
-theorem C11_full_fails : ¬ C11_full := by
-  intro h
-  have h1 := h rK20
-  rw [K20_witness.2] at h1
-  exact absurd h1 (by decide)
+theorem C11_full_holds : C11_full := fun r => model_holds r
 
 /-! ### concrete non-trivial inputs that meet the hypotheses -/
 
@@ -516,7 +498,7 @@ def rPin : Req :=
                 ("origins", .valid (.nats [4])), ("name", .valid (.nat 5))],
       md := [(3, 1), (1, 2), (3, 9), (0, 7)] }
 
-example : methodMismatch rPin = false ∧
+example :
     (handle Gen.chain Gen.routes rPin).status = 200 ∧
     (handle Gen.chain Gen.routes rPin).ops =
       [⟨"Cluster.Pin", .pin ⟨3, .dataT, ⟨3, 3, 2, .recursive, 0, .future 9001, [(1, 2), (3, 1)], none, [4], [1, 2]⟩,
